@@ -159,7 +159,7 @@ def native_run(pkg, calls, timeout_ms=10000, keep=None, race=False):
         json.dump({'calls': [{'func': f, 'args': [_enc_arg(a) for a in args]} for f, args in todo], 'timeout_ms': timeout_ms}, open(req, 'w'))
         if os.path.exists(req + '.out'):
             os.remove(req + '.out')
-        env = dict(GOENV, VERIF_REPLAY=req)
+        env = dict(GOENV, VERIF_REPLAY=req, VERIF_PYTHON=sys.executable)
         r = subprocess.run(['go', 'test'] + (['-race'] if race else []) + ['-tags', 'verif', '-vet=off', '-count=1', '-overlay', ovf, '-run', '^TestVerifReplay$',
                             '-timeout', '20m', './' + pkg], cwd=REPO, env=env, capture_output=True, text=True)
         if race and ('DATA RACE' in r.stdout + r.stderr or 'concurrent map' in r.stdout + r.stderr):
